@@ -473,13 +473,15 @@ class Interp:
                     return self.call_function(fi, [base], {}, fr, recv_cls=cq)
                 fi = self.prog.find_method(cq, name)
                 if fi is not None:
+                    if fi.is_static:
+                        return VFunc('function', fi=fi)
                     return VFunc('method', fi=fi, self=base, recv_cls=cq)
                 ca = self.prog.class_attr(cq, name)
                 if ca is not None:
                     if isinstance(ca, ast.Constant):
                         return self.const(ca.value)
                     raise Unsupported('class attribute %s.%s' % (cq, name))
-            if cq == 'iface:file':
+            if cq == 'iface:osfile':
                 return VFunc('builtin', name='print')
             if cq.startswith('iface:') or self.reg.has_iface_method(cq, name):
                 return VFunc('iface', cls=cq, name=name, self=base)
